@@ -5,6 +5,10 @@ HERE = os.path.dirname(os.path.dirname(os.path.abspath(__file__)))
 PY = '/venv/bin/python'
 
 CHECKS = {
+ 'C11': dict(sec='2/C11', cat='exploration',
+   text='combine1fiber is run on 1-D spectra and stacked 2-D exposures over every zero-weight pattern, output-grid relation (same, shifted, wider, narrower, coarser, finer, disjoint), aesthetics method, with and without objivar, float32/float64; shape, finiteness and ivar >= 0 are asserted on every call, the must-be-zero set is computed independently from the good-pixel pattern (one-directional, boundary band), non-zero single-spectrum ivar must equal np.interp of the input and stay below the local maximum; smooth noise-free inputs must be reproduced, constants preserved, (c*flux, ivar/c^2) scaled, and preprocess_spectra must move a narrow feature by log10(1+z). An audit hook turns any network access into a harness error.',
+   note='Trusts numpy.interp/searchsorted for the reference zero set; SPPIXMASK bits pre-loaded from fixtures/maskbits.par; finalmask/indisp/skyflux paths and fill values at bad pixels are outside the property.',
+   tech='runtime monitoring: boundary recorder + independent zero-set/interpolation oracle + metamorphic relations (identity, constant, scaling, de-redshift)'),
  'C12': dict(sec='2/C12', cat='exploration',
    text='Real membership, window-lookup, reader and set_use_caps calls run on generated polygon lists and index lists; every verdict outside a derived rounding band is compared with a long-double evaluation of the cap definition (a cap\'s own centre is always asserted), and the same list is pushed through all four storage formats (.ply, FITS raw/converted incl. the one-cap 3D layout, window_read from blist+bcaps) as real files, all answers having to agree with the reference. Held on the classes observed, each witnessed by a required counter.',
    note='Trusts numpy long double and vlib/refs/mangle_ref.py; astropy.io.fits as file writer; verdicts closer than 1e-9 (float32 caps 5e-5) in 1-x.p to a cap boundary are not asserted except a cap\'s own centre.',
